@@ -307,7 +307,12 @@ Valid(c) ==
           /\ SysDet(c) # 0
 
 MkCfg(m, v, ps, z, L, vr, ng, ex, er) ==
-  [model |-> m, dim |-> Dim, stretch |-> Stretch, quarter |-> 0, norm |-> <<1, 0>>, lunit |-> LUnit, vunit |-> VUnit,
+  [model |-> m, dim |-> Dim, stretch |-> Stretch, quarter |-> 0, norm |-> <<1, 0>>,
+   \* units that would enter the kriging matrix unevenly make it numerically singular for extreme factors
+   \* (excluded by the property): functional drift rows carry the length unit, a covariance unit rescales
+   \* the covariance block against the constraint rows.  There the unit stays 1.
+   lunit |-> IF v.drift = 1 THEN 0 ELSE LUnit,
+   vunit |-> IF v.unb \/ v.drift = 1 \/ v.ext # "none" THEN <<VUnit[1], 0>> ELSE VUnit,
    len |-> L, var |-> vr, nug |-> ng,
    cls |-> v.cls, unb |-> v.unb, drift |-> v.drift, ext |-> v.ext, mean |-> v.mean, trend |-> v.trend,
    exact |-> ex,
@@ -424,7 +429,11 @@ TrendActsAsMean ==
    data multiplies the estimate by A; a factor C on variance, nugget and measurement errors multiplies
    the kriging variance by C and leaves the estimate alone.  (Small integer factors; the position
    dependent external drift functions are excluded from the length theorem.) *)
-RatEq(p, q) == p[1] * q[2] = q[1] * p[2]
+RECURSIVE Gcd(_, _)
+Gcd(a, b) == IF b = 0 THEN a ELSE Gcd(b, a % b)
+Abs(a) == IF a < 0 THEN 0 - a ELSE a
+Reduce(q) == With(Gcd(Abs(q[1]), Abs(q[2])), LAMBDA g : IF g = 0 THEN q ELSE <<q[1] \div g, q[2] \div g>>)   \* den > 0
+RatEq(p, q) == Reduce(p) = Reduce(q)        \* equality of rationals in lowest terms (no cross products: 32 bit)
 ScalePts(ps, U) == [i \in 1..Len(ps) |-> [d \in 1..Len(ps[i]) |-> U * ps[i][d]]]
 SmallDD == DD(cfg) <= 16
 LengthUnitInvariant ==
